@@ -164,15 +164,101 @@ def run_C19(ctx, R):
 
 
 def run_C01(ctx, R):
-    from .rules import bnd
+    from .rules import bnd, parse
     _per_config(ctx, R, bnd.bnd_parse)
+    _per_config(ctx, R, parse.tab1)
+    _per_config(ctx, R, parse.tab1_depth_balance)
+    _per_config(ctx, R, parse.bnd6)
+    _per_config(ctx, R, parse.tab2_parse)
+
+
+def run_C10(ctx, R):
+    from .rules import bnd, parse
+
+    def only_entry(units, r):
+        tmp = Results(config=r.config)
+        bnd.bnd_parse(units, tmp)
+        for o in tmp.obs:
+            if o.function == 'cJSON_ParseWithLengthOpts' or o.rule == 'BND5' or 'summary' in o.what:
+                r.obs.append(o)
+        r.notes.extend(tmp.notes)
+        r.floor('BND5', 'obligations on the entry function', len(r.obs), 6)
+    _per_config(ctx, R, only_entry)
+    _per_config(ctx, R, parse.c10_structure)
+    _per_config(ctx, R, parse.tab2_parse)
+
+
+def run_C13(ctx, R):
+    from .rules import bnd3, out, tab, parse
+
+    def minify_loops(units, r):
+        u = units['cJSON.c']
+        parse.bnd6(units, r, functions=[u.fn(n) for n in bnd3.MINIFY])
+        r.floor('BND6', 'loops in the minify family', len(r.obs), 4)
+
+    def minify_out(units, r):
+        tmp = Results(config=r.config)
+        out.out5(units, tmp, only=set(bnd3.MINIFY))
+        out.out6(units, tmp)
+        for o in tmp.obs:
+            if o.function in bnd3.MINIFY:
+                r.obs.append(o)
+        r.floor('OUT5', 'write-cursor obligations in the minify family', len(r.obs), 10)
+    _per_config(ctx, R, bnd3.bnd3_minify)
+    _per_config(ctx, R, minify_out)
+    _per_config(ctx, R, minify_loops)
+    _per_config(ctx, R, tab.tab13)
 
 
 PROPERTIES = {
     'C01': {
-        'run': run_C01, 'modules': [],
-        'explanation': "BND1/BND2/BND4/EFF7 (work in progress)",
-        'not_decided': [],
+        'run': run_C01, 'modules': ['parse'],
+        'explanation':
+            "Forward dataflow over every function of the parse family (everything that takes a parse_buffer or a raw "
+            "input cursor). BND1/BND2: the abstract state bounds length-offset for each buffer and length-(p-content) for "
+            "each raw cursor; facts come only from the guards in the code (after macro expansion, so can_read / "
+            "can_access_at_index / cannot_access_at_index are seen as the comparisons they are) and from cursor "
+            "arithmetic; every input read (subscript, dereference, strncmp of the input) must be covered. Callee entry "
+            "requirements (parse_string/parse_array need one readable byte, parse_hex4 four) are inferred as least "
+            "assumptions by a fixpoint over the call graph and checked at every call site; the public entry function is "
+            "analysed from the API contract (value[0..buffer_length) readable, buffer_length != 0 after its own test); "
+            "the step-back postcondition of buffer_skip_whitespace is re-proved on every run. BND4: every subscript of a "
+            "local array is within its size (interval analysis with thresholds) and sprintf into local arrays fits. "
+            "EFF7: no store through anything derived from the input. TAB1: every recursion cycle of the parser passes a "
+            "CJSON_NESTING_LIMIT test with the counter incremented on every path to the recursive call and handed down; "
+            "the counter is decremented before every successful return. BND6: every loop of the family steps a cursor "
+            "or counter forward on every iteration. TAB2: the string entry points add only strlen+1.",
+        'not_decided': ["write bound of parse_string's output block (count over the whole literal)",
+                        'leak freedom on every exit (OWN rules, C03/C08)',
+                        'that the returned tree can be walked/printed/deleted (LST1 covers the tail link only)',
+                        'absence of UB in arithmetic other than the int saturation template (TAB7)'],
+    },
+    'C10': {
+        'run': run_C10, 'modules': ['parse'],
+        'explanation':
+            "BND5: every value stored into the error position that is published on failure is the constant 0, the "
+            "buffer offset at a point where a readable byte is proven, or length-1 where length>=1 is proven (dataflow "
+            "state of the entry function). C10P: on the failure path *return_parse_end and the global error are both "
+            "computed from one local error object (json + position; json is the caller's buffer) with no redefinition "
+            "between the two publications; on success the parse end is content+offset. C10R: the reset of both fields of "
+            "the global error dominates every return and no other store to it can reach the successful return. C10T: "
+            "with require_null_terminated, every path from the flag test to the successful return passes the comparison "
+            "of the byte at the cursor with 0, after skipping whitespace, and that read is bounds-guarded (BND1). TAB2: "
+            "the other entry points only forward.",
+        'not_decided': ['parse_end <= value+length on success (needs offset <= length after strtod\'s variable advance)',
+                        'prefix re-parse equality', "'exactly when' direction of the termination check (value semantics of whitespace skipping)"],
+    },
+    'C13': {
+        'run': run_C13, 'modules': ['parse', 'utils'],
+        'explanation':
+            "BND3 dataflow on NUL-terminated cursors over cJSON_Minify, skip_oneline_comment, skip_multiline_comment and "
+            "minify_string: a read json[k] needs k bytes proven not to be the terminator, an advance by c needs c such "
+            "bytes (the cursor never steps over the terminator); callee requirements (comment skippers need 2, "
+            "minify_string 1) are inferred and checked at the three call sites. OUT6: the write cursor never overtakes "
+            "the read cursor (lag >= 0 on every path, callee net lag >= 0), every store lands on a byte already read. "
+            "OUT5: no gap in the output. BND6: each loop advances the read cursor. TAB13: the string scanner consumes "
+            "the byte after a backslash whatever it is.",
+        'not_decided': ['value preservation and idempotence as such', 'completeness of whitespace/comment removal'],
     },
     'C14': {
         'run': run_C14,
